@@ -15,6 +15,7 @@ import (
 //	sub(c, lo, hi)   the substring c[lo:hi]                                   (bsub)
 //	strseq(s)        the byte string of the Go string s  ([]byte(s) holds it: the engine adds seq([]byte(s)) == strseq(s) at
 //	                 every string -> []byte conversion of a function that uses the algebra)
+//	bytestr(b)       the Go string string(b) of a byte slice b (no axioms: the term the code conversion produces)
 //
 // A function or lemma whose specifications (or callee contracts) use one of the three gets the axioms below in its preamble:
 // the laws of finite sequences under the intended reading (bseq = the window's content, an injective code). They are listed
@@ -65,6 +66,18 @@ func (e *SpecEnv) evalAlgebraBuiltin(name string, args []Expr) (SV, bool) {
 		fc.eng.declareUF(fc, "bsub", []string{"Int", "Int", "Int"}, "Int")
 		fc.assumes[algebraNote] = true
 		return SV{t: app("bsub", c.t, lo.t, hi.t), typ: mathInt}, true
+	case "bytestr":
+		// bytestr(b): the Go string string(b) of a byte slice (the term the engine uses for the conversion in code)
+		if len(args) != 1 {
+			e.fail("bytestr(slice)")
+		}
+		v := e.eval(args[0])
+		sl, ok := types.Unalias(v.typ).Underlying().(*types.Slice)
+		if !ok {
+			e.fail("bytestr of non-slice")
+		}
+		k, s := fc.bKey(sl.Elem())
+		return SV{t: app("str_of_bytes", app("select", fc.comp(e.cur, k, s), sarr(v.t)), soff(v.t), slen(v.t)), typ: types.Typ[types.String]}, true
 	case "strseq":
 		if len(args) != 1 {
 			e.fail("strseq(string)")
